@@ -10,18 +10,18 @@ open L4 L4.Config
 
 /-- **adapt ∘ render on a module's option block**: for every option table and every well-formed list of option values
 (each option known to the table with a value of its kind, none given twice), parsing the block the renderer writes gives
-back exactly those values — no option lost, merged, mis-assigned or rejected.  (Under the two string-codec laws for decimal
-integers and nanosecond durations.) -/
-theorem table_parse_render (L : CodecLaws) (schema : List Opt) (c : List (String × Val)) (hw : wf schema c = true) :
+back exactly those values — no option lost, merged, mis-assigned or rejected.  (The two string-codec laws for decimal
+integers and nanosecond durations are theorems: `Config.codecLaws`.) -/
+theorem table_parse_render (schema : List Opt) (c : List (String × Val)) (hw : wf schema c = true) :
     parseBlock schema (render c) (fun _ => none) = .ok (asMap c (fun _ => none)) :=
-  parse_render L schema c _ hw (fun _ _ => rfl)
+  parse_render codecLaws schema c _ hw (fun _ _ => rfl)
 
 /-- … hence the JSON object of the module states, for every option of the table, exactly the value written for it
 (dropped when empty, as `omitempty` does), and nothing else -/
-theorem table_json_states_values (L : CodecLaws) (schema : List Opt) (c : List (String × Val)) (hw : wf schema c = true) :
+theorem table_json_states_values (schema : List Opt) (c : List (String × Val)) (hw : wf schema c = true) :
     (parseBlock schema (render c) (fun _ => none)).map (tableJSON schema) =
       .ok (schema.filterMap fun o => (c.lookup o.name).bind fun v => (valJSON v).map fun j => (o.key, j)) := by
-  rw [table_parse_render L schema c hw]
+  rw [table_parse_render schema c hw]
   simp only [Except.map, tableJSON]
   congr 1
   apply filterMap_congr'
@@ -31,11 +31,11 @@ theorem table_json_states_values (L : CodecLaws) (schema : List Opt) (c : List (
 
 /-- **The order of the options in a block is irrelevant**: two well-formed blocks with the same options in a different
 order adapt to the same JSON (the defect class of "an option written before another one is lost"). -/
-theorem table_order_irrelevant (L : CodecLaws) (schema : List Opt) (c₁ c₂ : List (String × Val)) (hp : c₁.Perm c₂)
+theorem table_order_irrelevant (schema : List Opt) (c₁ c₂ : List (String × Val)) (hp : c₁.Perm c₂)
     (h₁ : wf schema c₁ = true) (h₂ : wf schema c₂ = true) :
     (parseBlock schema (render c₁) (fun _ => none)).map (tableJSON schema) =
       (parseBlock schema (render c₂) (fun _ => none)).map (tableJSON schema) := by
-  rw [table_json_states_values L schema c₁ h₁, table_json_states_values L schema c₂ h₂]
+  rw [table_json_states_values schema c₁ h₁, table_json_states_values schema c₂ h₂]
   congr 1
   apply filterMap_congr'
   intro o _
@@ -86,8 +86,11 @@ theorem adapt_deterministic (leafM leafH : LeafFn) (blocks : List Seg) :
 /-! non-vacuity and samples of the codec laws (tests, not theorems: the laws are hypotheses above) -/
 def demoSchema : List Opt := [⟨"latency", "latency", .dur⟩, ⟨"read_burst_size", "read_burst_size", .int⟩, ⟨"allow", "allow", .strs⟩]
 example : wf demoSchema [("allow", .ss ["10.0.0.0/8"]), ("latency", .d 5000000), ("read_burst_size", .i 7)] = true := by decide
-#guard (parseInt? (showInt (-42)), parseInt? (showInt 0), parseInt? (showInt 65535)) == (some (-42), some 0, some 65535)
-#guard (parseDur? (showDur 1500000000), parseDur? "5s", parseDur? "2h", parseDur? "1d") ==
-    (some 1500000000, some 5000000000, some 7200000000000, some 86400000000000)
+/-- the codec laws themselves (decimal integers, nanosecond durations), for all values -/
+theorem codec_laws : (∀ v : Int, parseInt? (showInt v) = some v) ∧ (∀ ns : Int, 0 ≤ ns → parseDur? (showDur ns) = some ns) :=
+  ⟨int_law, dur_law⟩
+
+#guard (parseDur? "5s", parseDur? "2h", parseDur? "1d", parseDur? "0", parseDur? "7") ==
+    (some 5000000000, some 7200000000000, some 86400000000000, some 0, none)
 
 end L4.C15
